@@ -62,6 +62,21 @@ def progOp (progS : Sexp) (valsS : List Sexp) : Sexp :=
     | .nofuel => .atom "model-nofuel"
   | _, _ => .list [.atom "model-decode-error"]
 
+def bitsOfStrict (env : Env) (rt : RT) (strict : Bool) (vals : List JsVal) : String :=
+  String.ofList (vals.map fun v => match RT.validate env strict 400 rt v with
+    | .ok true => '1' | .ok false => '0' | .throw _ => 'T' | .nofuel => 'F')
+
+/-- `(strict id prog files values)`: default-mode and strict-mode acceptance of the compiled validators (C11) -/
+def strictOp (progS : Sexp) (valsS : List Sexp) : Sexp :=
+  match decProg progS, valsS.mapM decVal with
+  | some p, some vals =>
+    match compile p with
+    | .ok env parsers => .list (.atom "bits" :: parsers.map fun e =>
+        .list [.atom e.1, .str (bitsOfStrict env e.2 false vals), .str (bitsOfStrict env e.2 true vals)])
+    | .diags _ => .list [.atom "diags"]
+    | .nofuel => .atom "model-nofuel"
+  | _, _ => .list [.atom "model-decode-error"]
+
 def specBits (decls : List Decl) (t : Ty) (vals : List JsVal) : String :=
   String.ofList (vals.map fun v => match Spec.mem decls 200 t v with
     | some true => '1' | some false => '0' | none => '?')
